@@ -176,6 +176,7 @@ type World struct {
 	dgrams        map[int]*Dgram
 	ciphers       map[int]*cipherObj
 	inbox         []*held
+	arena         []byte
 	viol          []Violation
 	trace         []string // observable outcome per step
 	abs           uint64   // abstract trace hash
